@@ -1,74 +1,236 @@
-// Package vfs: counting/crashing filesystem shim (spike).
+// Package vfs is the file-system shim of the verification harness (engine E3).
+// internal/store's calls to os.* are redirected here by a check-time source rewrite (never committed).
+// It logs every path, numbers every mutating call under a watched root, and can simulate a process
+// crash at the n-th mutating call: the root is marked dead (every later mutation under it, from any
+// goroutine, is suppressed) and the calling goroutine is parked forever.
 package vfs
 
 import (
-	"fmt"
+	"io"
 	"io/fs"
 	"os"
+	"path/filepath"
+	"strings"
 	"sync"
-	"sync/atomic"
+	"time"
+)
+
+// Op is one logged file-system call.
+type Op struct {
+	N    int    // index among the mutating calls under the armed/watched root (0 for reads)
+	Kind string // mkdirall, createtemp, write, writefile, rename, remove, stat, open, readfile, readdir
+	Path string // cleaned path (for rename: the source)
+	To   string // rename target
+	Mut  bool
+}
+
+const (
+	ModeBefore = 0 // die before the call takes effect
+	ModeAfter  = 1 // die right after the call took effect
+	ModeTorn   = 2 // writes: half of the bytes reach the file, then die (other calls: as ModeBefore)
 )
 
 var (
-	mu      sync.Mutex
-	count   int
-	armAt   int  // crash before mutating op number armAt (1-based); 0 = never
-	torn    bool // if the op is a write, write half then crash
-	dead    atomic.Bool
-	Crashed = make(chan struct{}, 1)
-	Log     []string
+	mu       sync.Mutex
+	log      []Op
+	logOn    bool
+	watch    string // root whose mutating calls are counted
+	count    int
+	armAt    int
+	armMode  int
+	deadRoot = map[string]bool{}
+	crashed  = make(chan struct{}, 1)
+	// MatchKind/MatchSuffix (optional): arm on the first mutating call of that kind whose path ends with the suffix
+	matchKind, matchSuffix string
 )
 
-func Reset(arm int, tornWrite bool) {
+// Reset clears the log and every armed crash; dead roots stay dead (their goroutines may still be around).
+func Reset(watchRoot string, logging bool) {
 	mu.Lock()
 	defer mu.Unlock()
-	count, armAt, torn = 0, arm, tornWrite
-	dead.Store(false)
-	Log = nil
+	log = nil
+	logOn = logging
+	watch = filepath.Clean(watchRoot)
+	count, armAt, armMode = 0, 0, 0
+	matchKind, matchSuffix = "", ""
 	select {
-	case <-Crashed:
+	case <-crashed:
 	default:
 	}
 }
 
-func Count() int { mu.Lock(); defer mu.Unlock(); return count }
-
-// step returns false if the op must be skipped (process is dead); parks forever at the crash point.
-func step(kind, path string) bool {
-	if dead.Load() {
-		return false
-	}
+// Arm schedules a crash at the n-th (1-based) mutating call under the watched root.
+func Arm(n int, mode int) {
 	mu.Lock()
-	count++
-	Log = append(Log, fmt.Sprintf("%d %s %s", count, kind, path))
-	hit := armAt != 0 && count == armAt
+	armAt, armMode = n, mode
 	mu.Unlock()
-	if hit {
-		dead.Store(true)
-		Crashed <- struct{}{}
-		select {} // the process is gone
-	}
-	return true
 }
 
+// ArmMatch schedules a crash at the first mutating call of the given kind whose path has the suffix.
+func ArmMatch(kind, suffix string, mode int) {
+	mu.Lock()
+	matchKind, matchSuffix, armMode = kind, suffix, mode
+	mu.Unlock()
+}
+
+// Crashed is signalled when the armed crash point has been reached.
+func Crashed() <-chan struct{} { return crashed }
+
+// Kill marks a root as belonging to a dead process.
+func Kill(root string) {
+	mu.Lock()
+	deadRoot[filepath.Clean(root)] = true
+	mu.Unlock()
+}
+
+// Forget removes the dead mark of a root (when the directory has been deleted).
+func Forget(root string) {
+	mu.Lock()
+	delete(deadRoot, filepath.Clean(root))
+	mu.Unlock()
+}
+
+// Log returns a copy of the call log.
+func Log() []Op {
+	mu.Lock()
+	defer mu.Unlock()
+	return append([]Op(nil), log...)
+}
+
+// MutCount returns the number of mutating calls seen under the watched root since Reset.
+func MutCount() int {
+	mu.Lock()
+	defer mu.Unlock()
+	return count
+}
+
+func under(p, root string) bool {
+	return root != "" && root != "." && (p == root || strings.HasPrefix(p, root+string(filepath.Separator)))
+}
+
+func isDead(p string) bool {
+	for r := range deadRoot {
+		if under(p, r) {
+			return true
+		}
+	}
+	return false
+}
+
+const (
+	doRun  = iota // perform the call
+	doSkip        // process is dead: pretend success, do nothing
+	doDieAfter
+	doTorn
+)
+
+// step records a call and decides what happens to it.
+func step(kind, path, to string, mut bool) int {
+	p := filepath.Clean(path)
+	mu.Lock()
+	if isDead(p) {
+		mu.Unlock()
+		if mut {
+			return doSkip
+		}
+		return doRun
+	}
+	op := Op{Kind: kind, Path: p, To: to, Mut: mut}
+	hit := false
+	if mut && under(p, watch) {
+		count++
+		op.N = count
+		if armAt != 0 && count == armAt {
+			hit = true
+		}
+		if matchKind != "" && kind == matchKind && strings.HasSuffix(p, matchSuffix) {
+			hit = true
+			matchKind = ""
+		}
+	}
+	if logOn {
+		log = append(log, op)
+	}
+	mode := armMode
+	if hit {
+		armAt = 0
+		if mode == ModeBefore || (mode == ModeTorn && kind != "write" && kind != "writefile") {
+			deadRoot[watch] = true
+		}
+	}
+	mu.Unlock()
+	if !hit {
+		return doRun
+	}
+	switch {
+	case mode == ModeAfter:
+		return doDieAfter
+	case mode == ModeTorn && (kind == "write" || kind == "writefile"):
+		return doTorn
+	}
+	die()
+	return doSkip
+}
+
+// die marks the watched root dead, signals the harness and parks the goroutine for good.
+func die() {
+	mu.Lock()
+	deadRoot[watch] = true
+	mu.Unlock()
+	select {
+	case crashed <- struct{}{}:
+	default:
+	}
+	select {} // the process is gone
+}
+
+// File wraps *os.File so that writes are counted.
 type File struct{ *os.File }
 
 func (f *File) Write(p []byte) (int, error) {
-	if !step("write", f.Name()) {
+	switch step("write", f.Name(), "", true) {
+	case doSkip:
 		return len(p), nil
+	case doDieAfter:
+		_, _ = f.File.Write(p)
+		die()
+	case doTorn:
+		_, _ = f.File.Write(p[:len(p)/2])
+		die()
 	}
 	return f.File.Write(p)
 }
 
+type writerOnly struct{ io.Writer }
+
+// ReadFrom must not bypass Write.
+func (f *File) ReadFrom(r io.Reader) (int64, error) { return io.Copy(writerOnly{f}, r) }
+
 func MkdirAll(p string, m os.FileMode) error {
-	if !step("mkdirall", p) {
+	switch step("mkdirall", p, "", true) {
+	case doSkip:
 		return nil
+	case doDieAfter:
+		_ = os.MkdirAll(p, m)
+		die()
 	}
 	return os.MkdirAll(p, m)
 }
+
 func CreateTemp(d, pat string) (*File, error) {
-	if !step("createtemp", d+"/"+pat) {
-		select {}
+	switch step("createtemp", filepath.Join(d, pat), "", true) {
+	case doSkip:
+		// a dead process creates nothing; hand out a handle on /dev/null so that callers keep going harmlessly
+		f, err := os.OpenFile(os.DevNull, os.O_RDWR, 0)
+		if err != nil {
+			return nil, err
+		}
+		return &File{f}, nil
+	case doDieAfter:
+		if f, err := os.CreateTemp(d, pat); err == nil {
+			_ = f.Close()
+		}
+		die()
 	}
 	f, err := os.CreateTemp(d, pat)
 	if err != nil {
@@ -76,31 +238,126 @@ func CreateTemp(d, pat string) (*File, error) {
 	}
 	return &File{f}, nil
 }
+
 func WriteFile(n string, b []byte, m os.FileMode) error {
-	if !step("writefile", n) {
+	switch step("writefile", n, "", true) {
+	case doSkip:
 		return nil
+	case doDieAfter:
+		_ = os.WriteFile(n, b, m)
+		die()
+	case doTorn:
+		_ = os.WriteFile(n, b[:len(b)/2], m)
+		die()
 	}
 	return os.WriteFile(n, b, m)
 }
+
 func Rename(a, b string) error {
-	if !step("rename", a+" -> "+b) {
+	switch step("rename", a, filepath.Clean(b), true) {
+	case doSkip:
 		return nil
+	case doDieAfter:
+		_ = os.Rename(a, b)
+		die()
 	}
 	return os.Rename(a, b)
 }
+
 func Remove(n string) error {
-	if !step("remove", n) {
+	switch step("remove", n, "", true) {
+	case doSkip:
 		return nil
+	case doDieAfter:
+		_ = os.Remove(n)
+		die()
 	}
 	return os.Remove(n)
 }
-func Stat(n string) (fs.FileInfo, error)      { return os.Stat(n) }
+
+func RemoveAll(n string) error {
+	switch step("removeall", n, "", true) {
+	case doSkip:
+		return nil
+	case doDieAfter:
+		_ = os.RemoveAll(n)
+		die()
+	}
+	return os.RemoveAll(n)
+}
+
+func Mkdir(p string, m os.FileMode) error {
+	switch step("mkdir", p, "", true) {
+	case doSkip:
+		return nil
+	case doDieAfter:
+		_ = os.Mkdir(p, m)
+		die()
+	}
+	return os.Mkdir(p, m)
+}
+
+func Chtimes(n string, a, m2 time.Time) error {
+	switch step("chtimes", n, "", true) {
+	case doSkip:
+		return nil
+	}
+	return os.Chtimes(n, a, m2)
+}
+
+func Create(n string) (*File, error) {
+	switch step("create", n, "", true) {
+	case doSkip:
+		f, err := os.OpenFile(os.DevNull, os.O_RDWR, 0)
+		if err != nil {
+			return nil, err
+		}
+		return &File{f}, nil
+	}
+	f, err := os.Create(n)
+	if err != nil {
+		return nil, err
+	}
+	return &File{f}, nil
+}
+
+func OpenFile(n string, flag int, perm os.FileMode) (*File, error) {
+	mut := flag&(os.O_WRONLY|os.O_RDWR|os.O_CREATE|os.O_TRUNC|os.O_APPEND) != 0
+	switch step("openfile", n, "", mut) {
+	case doSkip:
+		f, err := os.OpenFile(os.DevNull, os.O_RDWR, 0)
+		if err != nil {
+			return nil, err
+		}
+		return &File{f}, nil
+	}
+	f, err := os.OpenFile(n, flag, perm)
+	if err != nil {
+		return nil, err
+	}
+	return &File{f}, nil
+}
+
+func Stat(n string) (fs.FileInfo, error) {
+	step("stat", n, "", false)
+	return os.Stat(n)
+}
+
 func Open(n string) (*File, error) {
+	step("open", n, "", false)
 	f, err := os.Open(n)
 	if err != nil {
 		return nil, err
 	}
 	return &File{f}, nil
 }
-func ReadFile(n string) ([]byte, error)       { return os.ReadFile(n) }
-func ReadDir(n string) ([]os.DirEntry, error) { return os.ReadDir(n) }
+
+func ReadFile(n string) ([]byte, error) {
+	step("readfile", n, "", false)
+	return os.ReadFile(n)
+}
+
+func ReadDir(n string) ([]os.DirEntry, error) {
+	step("readdir", n, "", false)
+	return os.ReadDir(n)
+}
